@@ -32,6 +32,11 @@ BASES = {
     "one-file": [("{stem}.py", "Python", [5])],
     "empty": [],
     "nested": [("{dir}/e/{stem}.py", "Python", [15]), ("{dir}/b.js", "JavaScript", [31, 61]), ("x/y/z.java", "Java", [])],
+    # the files of one folder are NOT adjacent in the file order (a merged / partial report), a folder reappears later
+    "interleaved": [("{dir}/{stem}.py", "Python", [16]), ("main.py", "Python", [5]), ("{dir}/b.py", "Python", [31]), ("z.js", "JavaScript", [61]),
+                    ("{dir}/e/c.js", "JavaScript", [4]), ("y.py", "Python", [])],
+    # the stored line total is a field of its own: 0 with functions, non-zero without, different from the sum (4th item = loc)
+    "odd-loc": [("{stem}.py", "Python", [12, 7], 0), ("b.js", "JavaScript", [], 20), ("{dir}/c.java", "Java", [61], 100), ("{dir}/d.java", "Java", [31], 1)],
 }
 
 
@@ -45,10 +50,13 @@ def build(base, sub, with_repo, with_version):
     v.update(sub)
     cb = Codebase(v["root"])
     files = []
-    for tmpl, lang, lengths in BASES[base]:
+    for tmpl, lang, lengths, *loc in BASES[base]:
         path = tmpl.format(dir=v["dir"], stem=v["stem"])
         names = [v["function"] + str(i) for i in range(len(lengths))]
-        cb.add_file(harness.file_entry(path, lang, lengths, checksum=v["checksum"], names=names))
+        entry = harness.file_entry(path, lang, lengths, checksum=v["checksum"], names=names)
+        if loc:
+            entry.loc = loc[0]
+        cb.add_file(entry)
         files.append((path, lang, lengths, names))
     cb.aggregate()
     rep = Report(cb, GithubRepository(v["owner"], v["repo"], branch=v["branch"]) if with_repo else None)
